@@ -7,6 +7,7 @@ HERE = os.path.dirname(os.path.dirname(os.path.abspath(__file__)))
 HOOK_COMMITS = [
     "d3baacf verif hooks: event sink for stream appends, scopes, canon snapshots and stream fold iterations, compiled only with --cfg aquavm_verif",
     "116de8b verif hooks: report the snapshot taken by canon of a stream map into a scalar (cfg aquavm_verif only)",
+    "73efcd9 verif hooks: report fold iterations recorded in merged data that no iteration claimed at the end of a stream fold (cfg aquavm_verif only)",
 ]
 
 TRUST = ("Trusted base: the harness's host/service/scheduler model (src/sim.rs), the script generator, and the "
